@@ -11,6 +11,7 @@ import Oracle.C08
 import Oracle.C09
 import Oracle.C20
 import Oracle.C12
+import Oracle.Emit
 /-!
 Line-protocol driver.  stdin: one JSON object per line with a field "op" = "<component>.<operation>";
 stdout: one JSON line per input: the model's answer, or {"oracle_error": "..."}.
@@ -25,6 +26,7 @@ def dispatch (j : Json) : R Json := do
   else if op.startsWith "c15." then C15.handle op j
   else if op.startsWith "c16." then C16.handle op j
   else if op.startsWith "deps." then Deps.handle op j
+  else if op == "fe.emit" then Emit.emit j
   else if op.startsWith "fe." then FE.handle op j
   else if op == "flags.parse" then Mage.flagsParse j
   else if op == "front.parse" then Mage.frontParseOp j
